@@ -133,6 +133,22 @@ def _check_world(w, r, violations, keys, tag, use_cache=False, create_cache=None
                 mm.update({"group": grp, "rpc": r, "shape": [n, p], "backend": w.backend})
                 violations.append(Violation(ID, "pixel-mismatch", site, mm))
                 continue
+            # a transient read error during a load: it may fail, it must not return other values
+            if w.backend in world.RECORDED and (n * 7 + p * 3 + r) % 4 == 0:
+                SIM.read_fault = {"file": name, "nth": (n + p + r) % 4}
+                try:
+                    faulty = da.values
+                except Exception:  # noqa: BLE001
+                    faulty = None
+                finally:
+                    fired = bool(SIM.read_fault.get("fired"))
+                    SIM.read_fault = None
+                if fired and faulty is not None:
+                    fb = bits_of(faulty, prod.level)
+                    if fb is None or fb.shape != truth.shape or (fb != truth).any():
+                        violations.append(Violation(ID, "pixel-mismatch", tag + "under-eio:" + prod.level, {
+                            "group": grp, "rpc": r, "shape": [n, p]}))
+                        continue
             # block-by-block reading with the blocks kept: every block must still equal the file
             # after the later blocks were read through the same variable
             h = max(n // 2, 1)
